@@ -6,6 +6,7 @@ import Juniper.Proofs.PipeNoLoss
 import Juniper.Proofs.PipeLive
 import Juniper.Proofs.PipeQueue
 import Juniper.Proofs.PipeResult
+import Juniper.Proofs.PipeTrySticky
 /-!
 # C10 — stream.Pipe: FIFO per sender, nothing sent-before-close lost, no stuck call
 (and the Pipe clauses of C08: a call that fails on an expired context costs nothing, the close
@@ -600,6 +601,62 @@ a live one reports the close error again -/
 example : runCompletions (after (init 2 2) demo)
     [.startNext true, .recv (.recv chCtx), .startNext false, .recv (.recv chSenderDone), .recv .dflt, .closeRecv] =
     [(.recv, .ctx), (.recv, .err)] := by decide
+
+/-- **… and a `TrySend` called after the report does not re-open it** (fix8b, seeded/C10-m10).
+`pipe_end_sticky_when_quiet` / `pipe_end_sticky_results` with a weaker hypothesis on the continuation: only
+the start of a **`Send`** is excluded (`startsRealSend x = false`). `TrySend`s may be started after the report
+— any number, from any sender goroutine, with live or expired contexts — and run to completion, interleaved
+with `Next` calls, context expiries and the receiver's `Close`. If `Next` reports at a moment when no
+`Send`/`TrySend` is in flight (`Quiet`), then along every such continuation `ls`
+1. in the state reached no value-delivering label is enabled, the channel is empty, the sender is still
+   closed and the stored error is the one that was reported;
+2. every `Next` that returns along `ls` returns its own context's error or the same report again.
+Why it holds, and why only for `TrySend`: once the sender is closed a `TrySend` at its first `select` finds
+the `senderDone` arm ready, so that `select` cannot take `default`; every arm it can take returns; the second
+`select`, the only statement of `TrySend` that touches the data channel, is never reached. All three are
+statements about the regenerated first arm table of `TrySend` and its arm bodies (`TryGateFacts`, first
+line of the proof, `by decide`): a `TrySend` whose closed-check can fall through breaks this theorem by name.
+The property text's "once no Send is in flight …" is thereby proved for every period in which no call of
+the method `Send` is started after the report; for a `Send` started after the sender's `Close` the remark at
+`pipe_end_sticky_when_quiet` stands. -/
+theorem pipe_end_sticky_trySend_after_report {n b : Nat} {st s1 s2 : State} {l : Label} {ls : List Label}
+    (hr : Reach (init n b) st) (hq : Quiet st) (hs : step st l = some s1) (hrep : reportsEnd st l = true)
+    (hls : ∀ x ∈ ls, startsRealSend x = false) (hrun : run s1 ls = some s2) :
+    ((∀ l', deliversValue l' = true → step s2 l' = none) ∧ s2.buf = [] ∧
+      s2.senderDone = true ∧ s2.senderErr = s1.senderErr) ∧
+    ∀ r, (Who.recv, r) ∈ runCompletions s1 ls → r = .ctx ∨ r = endRes st := by
+  have hF : TryGateFacts := by decide
+  have hB : Bodies := ⟨⟨by decide, by decide, by decide, by decide, by decide⟩,
+    ⟨by decide, by decide, by decide, by decide, by decide, by decide, by decide, by decide⟩,
+    ⟨by decide, by decide, by decide, by decide, by decide, by decide, by decide, by decide⟩, by decide⟩
+  have hD : DrainFacts := ⟨by decide, by decide, by decide⟩
+  have h1 := settledT_of_settled (settled_of_quiet_report hD (inv_reach (by decide) hr) hq hs hrep)
+  obtain ⟨h2, herr⟩ := settledT_run hF h1 hls hrun
+  refine ⟨⟨fun l' hl' => settledT_no_delivery hF h2 hl', h2.2.1, h2.1, herr⟩, ?_⟩
+  obtain ⟨rfl, _, _, _, rfl⟩ := report_only_when_drained hD hs hrep
+  intro r hrr
+  exact settledT_run_results hF hB h1 hls hrun r hrr
+
+/-- non-vacuity: after the report of `demo` (sender closed with an error, buffer of 2 empty again), sender 1
+calls `TrySend 5` with a live context — it returns through the `senderDone` arm — sender 0 calls `TrySend 6`
+with an expired context and returns through the `ctx` arm; the `Next` calls in between and after report the
+close error again. All hypotheses hold, two `TrySend`s were started and have returned, nothing was sent. -/
+example : ∃ st s1 s2, Reach (init 2 2) st ∧ Quiet st ∧ step st (.recv .dflt) = some s1 ∧
+    reportsEnd st (.recv .dflt) = true ∧
+    run s1 [.startTry 1 5 false, .sender 1 (.recv chSenderDone), .startNext false, .recv (.recv chSenderDone), .recv .dflt,
+            .startTry 0 6 true, .sender 0 (.recv chCtx), .startNext false, .recv (.recv chSenderDone), .recv .dflt] = some s2 ∧
+    s2.buf = [] ∧ Quiet s2 ∧
+    runCompletions s1 [.startTry 1 5 false, .sender 1 (.recv chSenderDone), .startNext false, .recv (.recv chSenderDone), .recv .dflt,
+            .startTry 0 6 true, .sender 0 (.recv chCtx), .startNext false, .recv (.recv chSenderDone), .recv .dflt] =
+      [(.sender 1, .err), (.recv, .err), (.sender 0, .ctx), (.recv, .err)] :=
+  ⟨after (init 2 2) (demo.take 15), after (init 2 2) demo,
+   after (init 2 2) (demo ++ [.startTry 1 5 false, .sender 1 (.recv chSenderDone), .startNext false, .recv (.recv chSenderDone), .recv .dflt,
+            .startTry 0 6 true, .sender 0 (.recv chCtx), .startNext false, .recv (.recv chSenderDone), .recv .dflt]),
+   reach_after (by decide), by decide, by decide, by decide, by decide, by decide, by decide, by decide⟩
+
+/-- … and the `default` of that first `select` is indeed not enabled there: the step is refused by the model
+(the changed `TrySend` of seeded/C10-m10 takes exactly this step). -/
+example : (run (after (init 2 2) demo) [.startTry 1 5 false, .sender 1 .dflt]) = none := by decide
 
 /-! ## Pipe clauses of C08 -/
 
